@@ -124,6 +124,36 @@ def make_resolver(mod):
     return resolve
 
 
+def effective_module(mod):
+    """The module as the compiler sees it after pre_process_extensibility_implied: with
+    EXTENSIBILITY IMPLIED every SEQUENCE/SET/CHOICE reachable through members (the library does
+    not descend into SEQUENCE OF / SET OF elements, nor into ENUMERATED) has an extension marker.
+    Used for the Coq export only."""
+    if not mod.get('ext_implied'):
+        return mod
+    import copy
+    mod = copy.deepcopy(mod)
+
+    def visit(t):
+        if t['k'] not in ('SEQUENCE', 'SET', 'CHOICE'):
+            return
+        ms = list(t['root'])
+        for a in (t['ext'] or []):
+            if 'group' in a:
+                ms += a['group']
+            elif 'member' in a:
+                ms.append(a['member'])
+            else:
+                ms.append(a)
+        for m in ms:
+            visit(m['t'])
+        if t['ext'] is None:
+            t['ext'] = []
+    for _, t in mod['types']:
+        visit(t)
+    return mod
+
+
 def generate(rng, opts=None, name='M', p_real=.12):
     g = Gen02(rng, opts, p_real)
     mod = g.gen_module(name)
@@ -481,7 +511,9 @@ def fixture_module():
                    _m('s', dict(IA5), ('default', 'xy')),
                    _m('n', {'k': 'BIT STRING', 'size': None, 'named': [('b0', 0), ('b3', 3)]}, ('default', (b'\x90', 4))),
                    _m('r', dict(REAL_T), 'optional'), _m('must', dict(INT))],
-          'ext': [{'group': [_m('g1', dict(INT)), _m('g2', dict(NULL), 'optional')]},
+          'ext': [{'group': [_m('g1', dict(INT)), _m('g2', dict(NULL), 'optional'),
+                             _m('g3', _ref('F0'), ('default', 'e0')), _m('g4', dict(BITS), ('default', (b'\xa0', 3))),
+                             _m('g5', dict(OCT), ('default', b'\xcd'))]},
                   {'member': _m('a', dict(BOOL), 'optional')}]}
     f3 = {'k': 'SEQUENCE',
           'root': [_m('bools', of(dict(BOOL))), _m('enums', of(_ref('F0'))), _m('choices', of(_ref('F1'))),
